@@ -210,6 +210,10 @@ def r52(chk, m):
                 r = m.resolve_name(f, n.id)
                 if isinstance(r, tuple) and r[0] == 'assign' and isinstance(r[2][-1], (ast.Dict, ast.DictComp, ast.Call)):
                     cands.append(m.eval_const(r[1], r[2][-1]))
+    for k_ in {f.cls for f in fns if f.cls is not None and f.cls is not Macro}:
+        for exprs in k_.assigns.values():            # (a table kept as a class attribute of a helper class)
+            if isinstance(exprs[-1], (ast.Dict, ast.DictComp)):
+                cands.append(m.eval_const(k_, exprs[-1]))
     for v in cands:
         if isinstance(v, dict) and v and all(isinstance(k, str) and len(k) == 1 and k in '[(<{' for k in v):
             groupings = v
@@ -294,6 +298,19 @@ def reachable_private(m, fn, depth=3, any_name=False):
                 seen.add(callee.fullname)
                 out.append(callee)
                 todo.append((callee, d + 1))
+        for c in M.calls_in(f.node):
+            if isinstance(c.func, (ast.Name, ast.Attribute)):
+                try:
+                    k = m.resolve_expr(f, c.func)
+                except Exception:
+                    k = None
+                if isinstance(k, M.ClassInfo) and (any_name or re.match(r'_[A-Za-z]', k.name)):
+                    # a helper class made here: its methods are part of the computation
+                    for meth in k.methods.values():
+                        if meth.fullname not in seen:
+                            seen.add(meth.fullname)
+                            out.append(meth)
+                            todo.append((meth, d + 1))
         for c in M.calls_in(f.node):
             callee = None
             fx = c.func
